@@ -34,6 +34,36 @@ def _spread(batches):
   return max(hi - lo, 1e-6 * max(abs(hi), abs(lo), 1.0))
 
 
+def _var_scale(scale, spread):
+  """Scale of the variance tolerance: spread^2, plus the conditioning of the
+  problem for data with a large common offset - a numerically stable float64
+  algorithm (two-pass, Welford, pairwise merge) still carries means that are
+  off by ~eps * scale, i.e. ~eps * scale * spread in the variance (about 9 eps
+  with ATOL = 1e-12). A one-pass E[x^2] - mean^2 is off by ~eps * scale^2."""
+  return spread * spread + 2e-3 * scale * spread
+
+
+def _std_close(got, want, var_scale):
+  """stddev = sqrt(var): an error dv of the variance becomes dv / (2 stddev)
+  (sqrt(dv) when the data is constant)."""
+  import numpy as np
+  a = np.asarray(got, dtype=float)
+  wants = want if isinstance(want, list) else [want]
+  if a.ndim != (1 if isinstance(want, list) else 0) or a.size != len(wants):
+    return False
+  dv = cm.ATOL * var_scale
+  for g, w in zip(a.ravel().tolist(), wants):
+    wf = cm.to_float(w)
+    if math.isnan(wf) or math.isnan(g):
+      if not (math.isnan(wf) and math.isnan(g)):
+        return False
+      continue
+    allowed = math.sqrt(dv) if wf * wf <= dv else dv / (2 * wf)
+    if abs(g - wf) > allowed + cm.RTOL * abs(wf):
+      return False
+  return True
+
+
 def _vec_close(got, want, scale):
   """got: scalar/array from the library; want: scalar or list from the oracle."""
   import numpy as np
@@ -70,6 +100,10 @@ def check_meanvar(ctx, case):
   from ml_metrics._src.metrics import rolling_stats as mrs
 
   sub, batches = case['sub'], case['input']['batches']
+  dtype = {'int32': np.int32, 'int64': np.int64}.get(
+      (case.get('config') or {}).get('dtype'), float)
+  if dtype is not float:
+    ctx.count('stats_int_dtype_cases')
   cls = {'mean': rs.Mean, 'meanvar': rs.MeanAndVariance, 'var': rs.Var}[sub]
   scale = _scale(batches)
   spread = _spread(batches)
@@ -95,9 +129,7 @@ def check_meanvar(ctx, case):
   def compare(got_fields, want, path, mech=None):
     for k, g in got_fields.items():
       ctx.count('stats_value_checks')
-      sc = (spread * spread + 1e-4 * scale * spread) if k == 'var' else scale
-      if k == 'stddev':
-        sc = spread + 1e-4 * scale
+      sc = _var_scale(scale, spread) if k in ('var', 'stddev') else scale
       if k == 'total':
         sc = scale * max(1, len(_rows(batches)))
       w = want[k]
@@ -107,14 +139,14 @@ def check_meanvar(ctx, case):
         # scalar initial state (nan / 0). Same values, scalar shape: accepted.
         ctx.observe('all_nan_input_reported_as_scalar_initial_state')
         w = w[0] if w else float('nan')
-      if not _vec_close(g, w, sc):
+      if not (_std_close if k == 'stddev' else _vec_close)(g, w, sc):
         mis.add('value_mismatch', mech,
                 {'stat': k, 'path': path, 'got': g, 'want': w})
 
   first = batches[0]
   want_first = os_.nan_stats(first)
   want_all = os_.nan_stats(_rows(batches))
-  arr = lambda b: np.asarray(b, dtype=float)
+  arr = lambda b: np.asarray(b, dtype=dtype)
   try:
     with cm.observed_warnings(ctx, 'stats'):
       compare(fields(cls()(arr(first))), want_first, '__call__')
@@ -132,12 +164,10 @@ def check_meanvar(ctx, case):
       for name in ('mean', 'var', 'stddev', 'count', 'total'):
         ctx.count('stats_function_api_checks')
         g = getattr(mrs, name)(first)
-        sc = (spread * spread + 1e-4 * scale * spread) if name == 'var' else scale
-        if name == 'stddev':
-          sc = spread + 1e-4 * scale
+        sc = _var_scale(scale, spread) if name in ('var', 'stddev') else scale
         if name == 'total':
           sc = scale * len(first)
-        if not _vec_close(g, fn_want[name], sc):
+        if not (_std_close if name == 'stddev' else _vec_close)(g, fn_want[name], sc):
           mis.add('value_mismatch', None,
                   {'stat': name, 'path': 'metrics.rolling_stats', 'got': g,
                    'want': fn_want[name]})
@@ -147,24 +177,38 @@ def check_meanvar(ctx, case):
     ctx.sample({'family': 'stats', 'sub': sub, 'input': case['input']})
 
 
+MINMAX_ZERO = 'minmax-max-initialised-at-zero'
+
+
 def check_minmax(ctx, case):
-  """config {'axis': None|0, 'score': None|'len'}; input {'batches'} (values >= 0)."""
+  """config {'axis': None|0|-1, 'score': None|'len'|'sum'}; input {'batches'}
+  (values of any sign; axis -1 and a score only with 1-D / scalar scores)."""
   import numpy as np
   from ml_metrics._src.aggregates import rolling_stats as rs
 
   config, batches = case['config'], case['input']['batches']
   axis, score = config.get('axis'), config.get('score')
-  fn = len if score == 'len' else None
+  fn = {'len': len, 'sum': np.sum, None: None}[score]
   want = os_.min_max_count(batches, axis=axis, score=score)
   mis = cm.Mis()
   ctx.case(('stats', 'minmax', config, case['input']), len(batches) >= 2)
   ctx.count('stats_minmax_cases')
 
+  def negative_max(want_):
+    """Input class: the largest value (of some column) is below zero."""
+    w = want_['max']
+    return any(v < 0 for v in (w if isinstance(w, list) else [w]))
+
+  if negative_max(want):
+    ctx.count('stats_minmax_negative_max_cases')
+  scale = max(1.0, max(abs(float(v)) for b in batches for v in os_._flat(b)))
+
   def compare(obj, want_, path):
     for k in ('count', 'min', 'max'):
       ctx.count('stats_value_checks')
-      if not _vec_close(getattr(obj, k), want_[k], 1.0):
-        mis.add('value_mismatch', None,
+      if not _vec_close(getattr(obj, k), want_[k], scale):
+        mech = MINMAX_ZERO if k == 'max' and negative_max(want_) else None
+        mis.add('value_mismatch', mech,
                 {'stat': k, 'path': path, 'got': getattr(obj, k), 'want': want_[k]})
 
   try:
@@ -175,6 +219,13 @@ def check_minmax(ctx, case):
       compare(m.result(), want, 'accumulator')
       one = rs.MinMaxAndCount(batch_score_fn=fn, axis=axis).as_agg_fn()(batches[0])
       compare(one, os_.min_max_count(batches[:1], axis=axis, score=score), 'agg_fn')
+      if len(batches) > 1:
+        # merge of per-batch accumulators (shards)
+        parts = [rs.MinMaxAndCount(batch_score_fn=fn, axis=axis).add(b) for b in batches]
+        for other in parts[1:]:
+          parts[0].merge(other)
+        ctx.count('stats_accumulator_checks')
+        compare(parts[0].result(), want, 'merge')
   except Exception as e:  # pylint: disable=broad-exception-caught
     mis.add('raised', None, {'error': repr(e)[:300]})
   mis.flush(ctx, case)
